@@ -77,53 +77,63 @@ macro_rules! bump_with_settings_case {
     ($out:ident, $ma:tt, $up:tt, $ga:tt, $cl:tt => $ma2:literal, $ga2:literal, $cl2:literal) => {{
         for state in [State::Allocated, State::Unallocated, State::Claimed] {
             let id = format!("conv:bump.with_settings:{}:{}:{}:{}->{}:{}:{}:{:?}", $ma, $up, $ga, $cl, $ma2, $ga2, $cl2, state);
+            vcore::crash::set_inflight(format!("replayargs=[--conv {id}]"));
+            let whole = catch_unwind(AssertUnwindSafe(|| -> Option<Option<String>> {
             let src: Option<(Bump<SlabZ, S<$ma, $up, $ga, $cl>>, Option<(usize, usize)>)> = match state {
-                State::Unallocated => unalloc_src!($ma, $up, $ga, $cl),
-                State::Claimed => claimed_src!($ma, $up, $ga, $cl),
-                State::Allocated => Some(make::<S<$ma, $up, $ga, $cl>>()),
-            };
-            let Some((b, blk)) = src else { continue };
-            let must_panic = ($ga2 && state == State::Unallocated) || (!$cl2 && state == State::Claimed);
-            let r = catch_unwind(AssertUnwindSafe(|| b.with_settings::<S<$ma2, $up, $ga2, $cl2>>()));
-            let mut msg = None;
-            match r {
-                Ok(nb) => {
-                    if must_panic {
-                        msg = Some(format!("did not panic although the arena is {:?}", state));
-                    } else {
-                        if let (State::Allocated, Some(p)) = (state, pos_of(&nb)) {
-                            if p % $ma2 != 0 {
-                                msg = Some(format!("position {p:#x} is not a multiple of the new minimum alignment {}", $ma2));
-                            }
-                        }
-                        if !intact(blk) {
-                            msg = Some("data allocated before the conversion changed".into());
-                        }
-                        if state == State::Allocated {
-                            // the converted arena keeps working and respects the new alignment
-                            let q = nb.alloc(7u8).into_raw().as_ptr() as usize;
-                            let _ = q;
-                            if let Some(p) = pos_of(&nb) {
+                    State::Unallocated => unalloc_src!($ma, $up, $ga, $cl),
+                    State::Claimed => claimed_src!($ma, $up, $ga, $cl),
+                    State::Allocated => Some(make::<S<$ma, $up, $ga, $cl>>()),
+                };
+                let Some((b, blk)) = src else { return None };
+                let must_panic = ($ga2 && state == State::Unallocated) || (!$cl2 && state == State::Claimed);
+                let r = catch_unwind(AssertUnwindSafe(|| b.with_settings::<S<$ma2, $up, $ga2, $cl2>>()));
+                let mut msg = None;
+                match r {
+                    Ok(nb) => {
+                        if must_panic {
+                            msg = Some(format!("did not panic although the arena is {:?}", state));
+                        } else {
+                            if let (State::Allocated, Some(p)) = (state, pos_of(&nb)) {
                                 if p % $ma2 != 0 {
-                                    msg = Some(format!("position {p:#x} after one more allocation is not a multiple of {}", $ma2));
+                                    msg = Some(format!("position {p:#x} is not a multiple of the new minimum alignment {}", $ma2));
                                 }
                             }
                             if !intact(blk) {
-                                msg = Some("an allocation after the conversion overwrote earlier data".into());
+                                msg = Some("data allocated before the conversion changed".into());
+                            }
+                            if state == State::Allocated {
+                                // the converted arena keeps working and respects the new alignment
+                                let q = nb.alloc(7u8).into_raw().as_ptr() as usize;
+                                let _ = q;
+                                if let Some(p) = pos_of(&nb) {
+                                    if p % $ma2 != 0 {
+                                        msg = Some(format!("position {p:#x} after one more allocation is not a multiple of {}", $ma2));
+                                    }
+                                }
+                                if !intact(blk) {
+                                    msg = Some("an allocation after the conversion overwrote earlier data".into());
+                                }
                             }
                         }
+                        if state == State::Claimed {
+                            std::mem::forget(nb);
+                        }
                     }
-                    if state == State::Claimed {
-                        std::mem::forget(nb);
+                    Err(_) => {
+                        let _ = vcore::crash::take_last_panic();
+                        if !must_panic {
+                            msg = Some(format!("panicked although the arena is {:?} and the target settings allow that", state));
+                        }
                     }
                 }
-                Err(_) => {
-                    let _ = vcore::crash::take_last_panic();
-                    if !must_panic {
-                        msg = Some(format!("panicked although the arena is {:?} and the target settings allow that", state));
-                    }
-                }
-            }
+                Some(msg)
+            }));
+            vcore::crash::clear_inflight();
+            let msg = match whole {
+                Ok(Some(m)) => m,
+                Ok(None) => continue,
+                Err(_) => Some(format!("unexpected panic: {}", vcore::crash::take_last_panic().unwrap_or_default())),
+            };
             $out.push(ConvOutcome { id, msg, nontrivial: state != State::Allocated || $ma2 > $ma });
         }
     }};
@@ -148,56 +158,64 @@ macro_rules! scope_cases {
             if state == State::Claimed && !$cl {
                 continue;
             }
-            let (mut b, blk) = make::<S<$ma, $up, $ga, $cl>>();
             let id = format!("conv:scope.with_settings:{}:{}:{}:{}->{}:{}:{:?}", $ma, $up, $ga, $cl, $ma2, $cl2, state);
-            let must_panic = !$cl2 && state == State::Claimed;
-            let seen = std::cell::Cell::new(None);
-            let r = catch_unwind(AssertUnwindSafe(|| {
-                let sc: &mut BumpScope<'_, SlabZ, S<$ma, $up, $ga, $cl>> = b.as_mut_scope();
-                let byv = sc.by_value();
-                if state == State::Claimed {
-                    claim_scope!(byv, $cl);
+            vcore::crash::set_inflight(format!("replayargs=[--conv {id}]"));
+            let whole = catch_unwind(AssertUnwindSafe(|| {
+            let (mut b, blk) = make::<S<$ma, $up, $ga, $cl>>();
+                let must_panic = !$cl2 && state == State::Claimed;
+                let seen = std::cell::Cell::new(None);
+                let r = catch_unwind(AssertUnwindSafe(|| {
+                    let sc: &mut BumpScope<'_, SlabZ, S<$ma, $up, $ga, $cl>> = b.as_mut_scope();
+                    let byv = sc.by_value();
+                    if state == State::Claimed {
+                        claim_scope!(byv, $cl);
+                    }
+                    let ns: BumpScope<'_, SlabZ, S<$ma2, $up, $ga, $cl2>> = byv.with_settings();
+                    if state == State::Claimed {
+                        return (None, None);
+                    }
+                    let p = ns.stats().current_chunk().map(|c| c.bump_position().as_ptr() as usize);
+                    seen.set(p);
+                    let _ = ns.alloc(9u8);
+                    let p2 = ns.stats().current_chunk().map(|c| c.bump_position().as_ptr() as usize);
+                    (p, p2)
+                }));
+                let mut msg = None;
+                if let Some(q) = seen.get() {
+                    if q % $ma2 != 0 && r.is_err() {
+                        let _ = vcore::crash::take_last_panic();
+                        return (Some(format!("position {q:#x} is not a multiple of the new minimum alignment {} (and the next allocation panicked)", $ma2)), b);
+                    }
                 }
-                let ns: BumpScope<'_, SlabZ, S<$ma2, $up, $ga, $cl2>> = byv.with_settings();
-                if state == State::Claimed {
-                    return (None, None);
-                }
-                let p = ns.stats().current_chunk().map(|c| c.bump_position().as_ptr() as usize);
-                seen.set(p);
-                let _ = ns.alloc(9u8);
-                let p2 = ns.stats().current_chunk().map(|c| c.bump_position().as_ptr() as usize);
-                (p, p2)
-            }));
-            let mut msg = None;
-            if let Some(q) = seen.get() {
-                if q % $ma2 != 0 && r.is_err() {
-                    let _ = vcore::crash::take_last_panic();
-                    $out.push(ConvOutcome { id, msg: Some(format!("position {q:#x} is not a multiple of the new minimum alignment {} (and the next allocation panicked)", $ma2)), nontrivial: true });
-                    continue;
-                }
-            }
-            match r {
-                Ok((p, p2)) => {
-                    if must_panic {
-                        msg = Some("did not panic although the scope is claimed and the target is not claimable".into());
-                    } else if state == State::Allocated {
-                        for q in [p, p2].into_iter().flatten() {
-                            if q % $ma2 != 0 {
-                                msg = Some(format!("position {q:#x} is not a multiple of the new minimum alignment {}", $ma2));
+                match r {
+                    Ok((p, p2)) => {
+                        if must_panic {
+                            msg = Some("did not panic although the scope is claimed and the target is not claimable".into());
+                        } else if state == State::Allocated {
+                            for q in [p, p2].into_iter().flatten() {
+                                if q % $ma2 != 0 {
+                                    msg = Some(format!("position {q:#x} is not a multiple of the new minimum alignment {}", $ma2));
+                                }
+                            }
+                            if !intact(blk) {
+                                msg = Some("data allocated before the conversion changed".into());
                             }
                         }
-                        if !intact(blk) {
-                            msg = Some("data allocated before the conversion changed".into());
+                    }
+                    Err(_) => {
+                        let _ = vcore::crash::take_last_panic();
+                        if !must_panic {
+                            msg = Some(format!("panicked although the scope is {:?} and the target settings allow that", state));
                         }
                     }
                 }
-                Err(_) => {
-                    let _ = vcore::crash::take_last_panic();
-                    if !must_panic {
-                        msg = Some(format!("panicked although the scope is {:?} and the target settings allow that", state));
-                    }
-                }
-            }
+                (msg, b)
+            }));
+            vcore::crash::clear_inflight();
+            let (msg, b) = match whole {
+                Ok(x) => (x.0, Some(x.1)),
+                Err(_) => (Some(format!("unexpected panic: {}", vcore::crash::take_last_panic().unwrap_or_default())), None),
+            };
             $out.push(ConvOutcome { id, msg, nontrivial: $ma2 > $ma || state == State::Claimed });
             if state == State::Claimed {
                 std::mem::forget(b);
@@ -208,26 +226,35 @@ macro_rules! scope_cases {
 
 macro_rules! borrow_mut_cases {
     ($out:ident, $ma:tt, $up:tt, $ga:tt, $cl:tt => $ma2:literal) => {{
-        let (mut b, blk) = make::<S<$ma, $up, $ga, $cl>>();
         let id = format!("conv:borrow_mut_with_settings:{}:{}:{}:{}->{}", $ma, $up, $ga, $cl, $ma2);
-        let mut msg = None;
-        {
-            let nb: &mut Bump<SlabZ, S<$ma2, $up, $ga, $cl>> = b.borrow_mut_with_settings();
-            if let Some(p) = nb.stats().current_chunk().map(|c| c.bump_position().as_ptr() as usize) {
-                if p % $ma2 != 0 {
-                    msg = Some(format!("position {p:#x} is not a multiple of the new minimum alignment {}", $ma2));
+        vcore::crash::set_inflight(format!("replayargs=[--conv {id}]"));
+        let whole = catch_unwind(AssertUnwindSafe(|| {
+            let (mut b, blk) = make::<S<$ma, $up, $ga, $cl>>();
+            let mut msg = None;
+            {
+                let nb: &mut Bump<SlabZ, S<$ma2, $up, $ga, $cl>> = b.borrow_mut_with_settings();
+                if let Some(p) = nb.stats().current_chunk().map(|c| c.bump_position().as_ptr() as usize) {
+                    if p % $ma2 != 0 {
+                        msg = Some(format!("position {p:#x} is not a multiple of the new minimum alignment {}", $ma2));
+                    }
+                }
+                let _ = nb.alloc(5u8);
+                if let Some(p) = nb.stats().current_chunk().map(|c| c.bump_position().as_ptr() as usize) {
+                    if p % $ma2 != 0 {
+                        msg = Some(format!("position {p:#x} after an allocation is not a multiple of {}", $ma2));
+                    }
                 }
             }
-            let _ = nb.alloc(5u8);
-            if let Some(p) = nb.stats().current_chunk().map(|c| c.bump_position().as_ptr() as usize) {
-                if p % $ma2 != 0 {
-                    msg = Some(format!("position {p:#x} after an allocation is not a multiple of {}", $ma2));
-                }
+            if !intact(blk) {
+                msg = Some("data allocated before the conversion changed".into());
             }
-        }
-        if !intact(blk) {
-            msg = Some("data allocated before the conversion changed".into());
-        }
+            msg
+        }));
+        vcore::crash::clear_inflight();
+        let msg = match whole {
+            Ok(m) => m,
+            Err(_) => Some(format!("unexpected panic: {}", vcore::crash::take_last_panic().unwrap_or_default())),
+        };
         $out.push(ConvOutcome { id, msg, nontrivial: $ma2 > $ma });
     }};
 }
